@@ -93,6 +93,10 @@ func init() {
 		},
 		"verifSymbolic": func(in *Interp, fn *ssa.Function, a []Value) Value { return in.C.True },
 		"verifNote":     func(in *Interp, fn *ssa.Function, a []Value) Value { return nil },
+		"verifTimeAgo": func(in *Interp, fn *ssa.Function, a []Value) Value {
+			d := in.term(a[0])
+			return Agg{in.C.Const(64, 0), in.C.Sub(in.clock(), d), Pointer{}}
+		},
 		"verifErrIsNil": func(in *Interp, fn *ssa.Function, a []Value) Value {
 			return in.C.Bool(a[0].(Iface).T == nil)
 		},
@@ -118,6 +122,13 @@ func init() {
 		"(*sync.RWMutex).RLock": func(in *Interp, fn *ssa.Function, a []Value) Value { return nil },
 		"(*sync.RWMutex).RUnlock": func(in *Interp, fn *ssa.Function, a []Value) Value { return nil },
 		"(*sync.Once).Do":       xOnceDo,
+		"time.Now": func(in *Interp, fn *ssa.Function, a []Value) Value {
+			return Agg{in.C.Const(64, 0), in.clock(), Pointer{}}
+		},
+		"time.Since": func(in *Interp, fn *ssa.Function, a []Value) Value {
+			t := a[0].(Agg)
+			return in.C.Sub(in.clock(), in.term(t[1]))
+		},
 		"os.Getenv":             func(in *Interp, fn *ssa.Function, a []Value) Value { return Str{} },
 		"math/bits.Len64":       func(in *Interp, fn *ssa.Function, a []Value) Value { return in.bitsLen(in.term(a[0])) },
 		"math/bits.Len32":       func(in *Interp, fn *ssa.Function, a []Value) Value { return in.bitsLen(in.term(a[0])) },
@@ -413,3 +424,14 @@ func xReverseBits(in *Interp, fn *ssa.Function, a []Value) Value {
 }
 
 var _ = strings.HasPrefix
+
+// clock: the abstract wall clock. One symbolic instant per path: time does not advance while a single
+// harness operation runs; elapsed times are set up by the harness with verifTimeAgo.
+func (in *Interp) clock() *smt.Term {
+	if t, ok := in.ghost["clock"]; ok {
+		return t.(*smt.Term)
+	}
+	t := in.C.Const(64, 1<<50)
+	in.ghost["clock"] = t
+	return t
+}
